@@ -96,6 +96,14 @@ func Resume(
 				// file most-likely contains the index and we cannot know where it starts, therefore
 				// can't resume.
 				return errors.New("corrupt CARv2 header; cannot resume from file")
+			} else if headerInFile.IndexOffset == 0 {
+				// The header declares no index, so nothing may follow the CARv1 payload. If something
+				// does, the CARv2 header was most-likely partially written (the index offset comes
+				// last in it) and its CARv1 size cannot be trusted: truncating by it would lose blocks.
+				var b [1]byte
+				if _, err := rw.ReadAt(b[:], int64(headerInFile.DataOffset+headerInFile.DataSize)); err != io.EOF {
+					return errors.New("corrupt CARv2 header; cannot resume from file")
+				}
 			}
 		}
 
